@@ -220,7 +220,8 @@ namespace xsimd
         {
             if (std::is_signed<T>::value)
             {
-                return sadd(self, -other);
+                // ~x == -x - 1, so this clamps self - other without negating other (-MIN overflows)
+                return ~sadd(~self, other);
             }
             else
             {
